@@ -55,10 +55,18 @@ _DNS = (
     "            elif setting == BeaconSetting.SETTING_DNS_BEACON_PUT_METADATA:\n                dns_beacon.set_option(\"put_metadata\", value)\n"
     "            elif setting == BeaconSetting.SETTING_DNS_BEACON_PUT_OUTPUT:\n                dns_beacon.set_option(\"put_output\", value)\n"
 )
+# (F19 repaired: the byte arguments are handed to the builders unchanged - no `v = repr(v)[2:-1]` before the append)
 _POST_TAIL = (
-    "                        # log.debug(f\"{k} -> {v}\")\n                        v = repr(v)[2:-1]\n"
+    "                        # log.debug(f\"{k} -> {v}\")\n"
     "                        block_steps[_build].append((k.lower(), v))\n"
 )
+_GET_TAIL = "                    else:\n                        block_steps[_build].append((k.lower(), v))\n"
+_POST_APPEND = "                        block_steps[_build].append((k.lower(), v))\n"
+
+
+def _post(conv):
+    """The SETTING_C2_POSTREQ valued-step branch with a conversion statement put before the append."""
+    return "                        # log.debug(f\"{k} -> {v}\")\n" + conv + _POST_APPEND
 _POST_ATTACH = "                    http_post_client.set_config_block(block, DataTransformBlock(steps=steps))\n"
 _X64_ATTACH = "                    proc_inj.set_config_block(\"transform_x64\", transform_block)\n"
 _STAGE_EPI = "        profile.set_non_empty_config_block(\"stage\", stage)\n"
@@ -155,8 +163,8 @@ T("C13", "twin-from-execute-list-inverted", F, _FROM_EXEC, _FROM_EXEC_INV.replac
 M("C13", "from-execute-list-inverted-drops-dash", F, _FROM_EXEC, _FROM_EXEC_INV.replace("{NAMES}", _NAMES5), "C13.R3")
 
 # ------------------------------------------------------------------------------------------------ R4 / R5
-T("C13", "twin-post-escaped-temporary", F, _POST_TAIL,
-  "                        escaped = repr(v)[2:-1]\n                        block_steps[_build].append((k.lower(), escaped))\n")
+T("C13", "twin-post-argument-through-temporary", F, _POST_TAIL,
+  "                        argument = v\n                        block_steps[_build].append((k.lower(), argument))\n")
 M("C13", "post-args-latin1-text", F, _POST_TAIL, "                        block_steps[_build].append((k.lower(), v.decode(\"latin-1\")))\n", "C13.R4")
 M("C13", "post-blocks-into-get-client", F, _POST_ATTACH, "                    http_get_client.set_config_block(block, DataTransformBlock(steps=steps))\n", "C13.R5")
 M("C13", "x64-transform-under-x86-name", F, _X64_ATTACH, "                    proc_inj.set_config_block(\"transform_x86\", transform_block)\n", "C13.R5")
@@ -196,14 +204,21 @@ def _gate_table(last):
 
 T("C13", "twin-gate-producer-label-table", B, _GATE_PROD, _gate_table("Cleanup"))
 M("C13", "gate-producer-label-appended-wrong", B, "        ret.append(\"Cleanup\")\n", "        ret.append(\"CleanUp\")\n", "C13.R2")
-_X86_LOOP = (
-    "                for k, v in value:\n                    # v = v.decode()\n                    v = repr(v)[2:-1]\n"
-    "                    if k == \"prepend\":\n                        prepend = v\n                    elif k == \"append\":\n                        append = v\n"
-)
-T("C13", "twin-x86-arguments-by-comprehension", F, _X86_LOOP,
-  "                parts = {k: repr(v)[2:-1] for k, v in value}\n                prepend = parts.get(\"prepend\", \"\")\n                append = parts.get(\"append\", \"\")\n")
-M("C13", "x86-arguments-by-comprehension-decoded", F, _X86_LOOP,
-  "                parts = {k: v.decode(\"latin-1\") for k, v in value}\n                prepend = parts.get(\"prepend\", \"\")\n                append = parts.get(\"append\", \"\")\n", "C13.R4")
+_X86_HEAD = "            elif setting == BeaconSetting.SETTING_PROCINJ_TRANSFORM_X86:\n                steps = []\n                prepend = \"\"\n                append = \"\"\n"
+_X86_FOR = "                for k, v in value:\n"
+_X86_BODY = "                    if k == \"prepend\":\n                        prepend = v\n                    elif k == \"append\":\n                        append = v\n"
+_X86_LOOP = _X86_HEAD + _X86_FOR + _X86_BODY
+_X64_HEAD = _X86_HEAD.replace("X86", "X64").replace("                steps = []\n", "                steps = []\n                # proc_inj.set_config_block(\"transform_x64\", DataTransformBlock(steps=steps))\n")
+_X64_LOOP = _X64_HEAD + _X86_FOR + _X86_BODY
+
+
+def _x86_comprehension(expr):
+    return _X86_HEAD + "                parts = {k: " + expr + " for k, v in value}\n                prepend = parts.get(\"prepend\", \"\")\n                append = parts.get(\"append\", \"\")\n"
+
+
+T("C13", "twin-x86-arguments-by-comprehension", F, _X86_LOOP, _x86_comprehension("v"))
+M("C13", "x86-arguments-by-comprehension-decoded", F, _X86_LOOP, _x86_comprehension("v.decode(\"latin-1\")"), "C13.R4")
+M("C13", "x86-arguments-by-comprehension-unpinned-repr", F, _X86_LOOP, _x86_comprehension("repr(v)[2:-1]"), "C13.R11")
 _EXEC_CONS_FULL = "                exec_options = ExecuteOptionsBlock()\n" + _EXEC_CONS
 _PLAIN_ANCHOR = "    setthreadcontext = ConfigBlock._enable\n\n    @classmethod\n    def from_execute_list"
 
@@ -298,20 +313,23 @@ _LOGGER = "logger = logging.getLogger(__name__)\n"
 
 def _translate(table_src):
     return [(F, _LOGGER, _LOGGER + table_src),
-            (F, _POST_TAIL, "                        v = v.decode(\"latin-1\").translate(_ESCAPES)\n                        block_steps[_build].append((k.lower(), v))\n")]
+            (F, _POST_TAIL, _post("                        v = v.decode(\"latin-1\").translate(_ESCAPES)\n"))]
 
 
-T("C13", "twin-post-args-translate-table", F, "", "", edits=_translate(
-    "_ESCAPES = {c: \"\\\\x%02x\" % c for c in range(256) if c < 32 or c > 126}\n_ESCAPES[ord(\"\\\\\")] = \"\\\\\\\\\"\n"))
+# (a table that doubles the backslash and leaves the apostrophe plain meets the `\\'` rewrite of the str path like the unpinned repr
+# did: R11 reads the table entries for the backslash and for the apostrophe; with the str path of repair B it is a twin, undecided)
+_TABLE_DOUBLING = "_ESCAPES = {c: \"\\\\x%02x\" % c for c in range(256) if c < 32 or c > 126}\n_ESCAPES[ord(\"\\\\\")] = \"\\\\\\\\\"\n"
+M("C13", "post-args-translate-table-apostrophe-plain", F, "", "", "C13.R11", edits=_translate(_TABLE_DOUBLING))
+T("C13", "twin-post-args-translate-table-apostrophe-escaped", F, "", "", edits=_translate(_TABLE_DOUBLING + "_ESCAPES[ord(\"'\")] = \"\\\\'\"\n"))
 T("C13", "twin-post-args-translate-table-filled-by-loop", F, "", "", edits=_translate(
     "_ESCAPES = {}\nfor _code in list(range(32)) + list(range(127, 256)) + [0x5C]:\n    _ESCAPES[_code] = \"\\\\x%02x\" % _code\n"))
 M("C13", "post-args-translate-table-without-backslash", F, "", "", "C13.R4", edits=_translate(
     "_ESCAPES = {c: \"\\\\x%02x\" % c for c in range(256) if c < 32 or c > 126}\n"))
 M("C13", "post-args-translate-table-backslash-update-by-character", F, "", "", "C13.R4", edits=_translate(
     "_ESCAPES = {c: \"\\\\x%02x\" % c for c in range(256) if c < 32 or c > 126}\n_ESCAPES.update({\"\\\\\": \"\\\\\\\\\"})\n"))
-M("C13", "x86-arguments-decoded-quotes-escaped-only", F, _X86_LOOP, _X86_LOOP.replace("v = repr(v)[2:-1]", "v = v.decode(\"latin-1\").replace('\"', '\\\\\"')"), "C13.R4")
-M("C13", "tcp-frame-header-decoded", F, "profile.set_option(\"tcp_frame_header\", repr(value)[2:-1])", "profile.set_option(\"tcp_frame_header\", value.decode(\"latin-1\"))", "C13.R4")
-T("C13", "twin-smb-frame-header-raw-bytes", F, "profile.set_option(\"smb_frame_header\", repr(value)[2:-1])", "profile.set_option(\"smb_frame_header\", value)")
+M("C13", "x86-arguments-decoded-quotes-escaped-only", F, _X86_LOOP, _X86_HEAD + _X86_FOR + "                    v = v.decode(\"latin-1\").replace('\"', '\\\\\"')\n" + _X86_BODY, "C13.R4")
+M("C13", "tcp-frame-header-decoded", F, "profile.set_option(\"tcp_frame_header\", value)", "profile.set_option(\"tcp_frame_header\", value.decode(\"latin-1\"))", "C13.R4")
+T("C13", "twin-smb-frame-header-keyword-arguments", F, "profile.set_option(\"smb_frame_header\", value)", "profile.set_option(option=\"smb_frame_header\", value=value)")
 
 # R10: the content-less case of every sequence-valued setting
 _RECOVER_TAIL = "        if c2_recover:\n            http_get.set_non_empty_config_block(\"server\", HttpOptionsBlock(output=DataTransformBlock(steps=c2_recover)))\n"
@@ -334,3 +352,82 @@ _EXEC_GUARD = "                if value:\n                    proc_inj.set_confi
 T("C13", "twin-execute-guard-by-length", F, _EXEC_GUARD, "                if len(value) > 0:\n                    proc_inj.set_config_block(\"execute\", exec_options)\n")
 T("C13", "twin-execute-guard-not-the-empty-list", F, _EXEC_GUARD, "                if value != [] and len(value) >= 1:\n                    proc_inj.set_config_block(\"execute\", exec_options)\n")
 M("C13", "execute-guard-length-always-true", F, _EXEC_GUARD, "                if len(value) >= 0:\n                    proc_inj.set_config_block(\"execute\", exec_options)\n", "C13.R10")
+
+# ------------------------------------------------------------------------------------------------ wave 3: R11 (finding F19)
+# A byte argument reaches the profile text through the conversion at the generator site AND the path of value_to_string the
+# resulting type takes.  F19: `repr(v)[2:-1]` (quote style not pinned: an apostrophe can come out unescaped) handed over as
+# str met the str path's `\'` -> `'` rewrite, which then split an escaped backslash (bytes backslash + apostrophe).  The
+# repaired tree hands the bytes over unchanged.  Entries are edits of the REPAIRED text.
+_VTS_STR = (
+    "        value = value.replace('\"', '\\\\\"')\n"
+    "        # we don't have to escape single quotes, as we return it as a double quoted value\n"
+    "        value = value.replace(\"\\\\'\", \"'\")\n"
+)
+_VTS_BYTES = "        value = repr(b'\"' + value)[3:-1]\n"
+# repair B: the un-escape of the apostrophe pair belongs to the (pinned) bytes branch, the str path only escapes the double quote
+_FIX_B = [(F, _VTS_BYTES, _VTS_BYTES + "        value = value.replace(\"\\\\'\", \"'\")\n"),
+          (F, _VTS_STR, "        value = value.replace('\"', '\\\\\"')\n")]
+_UNPINNED = "                        v = repr(v)[2:-1]\n"
+_PINNED = "                        v = repr(b'\"' + v)[3:-1]\n"
+_CODEC = "                        v = v.decode(\"latin-1\").encode(\"unicode_escape\").decode(\"ascii\")\n"
+_TCP = "profile.set_option(\"tcp_frame_header\", value)"
+_SMB = "profile.set_option(\"smb_frame_header\", value)"
+
+# the exact reversal of repair A at one site, and the same at the other kinds of site
+M("C13", "post-args-unpinned-repr-reintroduced", F, _POST_TAIL, _post(_UNPINNED), "C13.R11")
+M("C13", "get-args-unpinned-repr-through-temporary", F, _GET_TAIL,
+  "                    else:\n                        escaped = repr(v)[2:-1]\n                        block_steps[_build].append((k.lower(), escaped))\n", "C13.R11")
+M("C13", "tcp-frame-header-unpinned-repr", F, _TCP, "profile.set_option(\"tcp_frame_header\", repr(value)[2:-1])", "C13.R11")
+M("C13", "x64-arguments-unpinned-repr", F, _X64_LOOP, _X64_HEAD + _X86_FOR + "                    v = repr(v)[2:-1]\n" + _X86_BODY, "C13.R11")
+M("C13", "post-args-str-of-bytes-slice", F, _POST_TAIL, _post("                        v = str(v)[2:-1]\n"), "C13.R11")
+# the other escaper that leaves the apostrophe plain
+M("C13", "post-args-unicode-escape-codec-as-str", F, _POST_TAIL, _post(_CODEC), "C13.R11")
+M("C13", "smb-frame-header-unicode-escape-codecs-module", F, "", "", "C13.R11", edits=[
+    (F, "import collections\nimport logging\n", "import codecs\nimport collections\nimport logging\n"),
+    (F, _SMB, "profile.set_option(\"smb_frame_header\", codecs.decode(codecs.encode(codecs.decode(value, \"latin-1\"), \"unicode_escape\"), \"ascii\"))")])
+M("C13", "post-args-unicode-escape-first-decoding-ascii", F, _POST_TAIL,
+  _post("                        v = v.decode(\"ascii\").encode(\"unicode_escape\").decode(\"ascii\")\n"), "C13.R11")
+# the escaper moved into a new helper (inlined by the normaliser)
+_HELPER_AT = "def string_token_to_bytes(token: Token)"
+M("C13", "post-args-escaper-helper-unpinned", F, "", "", "C13.R11", edits=[
+    (F, _HELPER_AT, "def _escape_argument(data: bytes) -> str:\n    return repr(data)[2:-1]\n\n\n" + _HELPER_AT),
+    (F, _POST_TAIL, _post("                        v = _escape_argument(v)\n"))])
+T("C13", "twin-post-args-escaper-helper-pinned", F, "", "", edits=[
+    (F, _HELPER_AT, "def _escape_argument(data: bytes) -> str:\n    return repr(b'\"' + data)[3:-1]\n\n\n" + _HELPER_AT),
+    (F, _POST_TAIL, _post("                        v = _escape_argument(v)\n"))])
+# pinned repr: the apostrophe is always the pair, the `\'` rewrite only ever matches that pair (lemma E5, second case)
+T("C13", "twin-post-args-pinned-repr-as-str", F, _POST_TAIL, _post(_PINNED))
+T("C13", "twin-tcp-frame-header-pinned-repr-as-str", F, _TCP, "profile.set_option(\"tcp_frame_header\", repr(b'\"' + value)[3:-1])")
+T("C13", "twin-post-args-pinned-repr-suffix-pin", F, _POST_TAIL, _post("                        v = repr(v + b'\"')[2:-2]\n"))
+M("C13", "post-args-pinned-repr-slice-keeps-pin", F, _POST_TAIL, _post("                        v = repr(b'\"' + v)[2:-1]\n"), "C13.R11")
+M("C13", "post-args-unpinned-repr-slice-cuts-value", F, "", "", "C13.R11", edits=_FIX_B + [(F, _POST_TAIL, _post("                        v = repr(v)[2:-2]\n"))])
+M("C13", "post-args-escaped-text-handed-over-as-bytes", F, _POST_TAIL, _post("                        v = repr(b'\"' + v)[3:-1].encode(\"ascii\")\n"), "C13.R11")
+M("C13", "post-args-unicode-escape-bytes-escaped-twice", F, _POST_TAIL, _post("                        v = v.decode(\"latin-1\").encode(\"unicode_escape\")\n"), "C13.R11")
+# repair B shape: the str path only escapes the double quote - every escaper composes with it
+T("C13", "twin-fix-b-unpinned-repr-sites", F, "", "", edits=_FIX_B + [
+    (F, _POST_TAIL, _post(_UNPINNED)), (F, _TCP, "profile.set_option(\"tcp_frame_header\", repr(value)[2:-1])"),
+    (F, _X64_LOOP, _X64_HEAD + _X86_FOR + "                    v = repr(v)[2:-1]\n" + _X86_BODY)])
+T("C13", "twin-fix-b-unicode-escape-codec", F, "", "", edits=_FIX_B + [(F, _POST_TAIL, _post(_CODEC))])
+T("C13", "twin-fix-b-bytes-handed-over", F, "", "", edits=_FIX_B)
+# rewrites of the str path other than the `\'` one, met by a site that hands escaped text over
+M("C13", "pinned-repr-site-str-path-strips-backslashes", F, "", "", "C13.R11", edits=[
+    (F, _VTS_STR, _VTS_STR.replace("value.replace(\"\\\\'\", \"'\")", "value.replace(\"\\\\\", \"\")")), (F, _POST_TAIL, _post(_PINNED))])
+M("C13", "pinned-repr-site-str-path-unescapes-newline", F, "", "", "C13.R11", edits=[
+    (F, _VTS_STR, _VTS_STR.replace("value.replace(\"\\\\'\", \"'\")", "value.replace(\"\\\\n\", \"\\n\")")), (F, _POST_TAIL, _post(_PINNED))])
+M("C13", "pinned-repr-site-str-path-apostrophe-pair-to-space", F, "", "", "C13.R11", edits=[
+    (F, _VTS_STR, _VTS_STR.replace("value.replace(\"\\\\'\", \"'\")", "value.replace(\"\\\\'\", \" \")")), (F, _POST_TAIL, _post(_PINNED))])
+T("C13", "twin-pinned-repr-site-str-path-rewrites-chained", F, "", "", edits=[
+    (F, _VTS_STR, "        value = value.replace('\"', '\\\\\"').replace(\"\\\\'\", \"'\")\n"), (F, _POST_TAIL, _post(_PINNED))])
+T("C13", "twin-pinned-repr-site-str-path-early-return", F, "", "", edits=[
+    (F, _VTS_STR + "    return f'\"{value}\"'\n",
+     "        escaped = value.replace('\"', '\\\\\"')\n        return '\"' + escaped.replace(\"\\\\'\", \"'\") + '\"'\n    return f'\"{value}\"'\n"),
+    (F, _POST_TAIL, _post(_PINNED))])
+# the builder looks at the type of the value before the encoder sees it: a bytes / str value still reaches value_to_string itself
+_SET_OPTION = "    def set_option(self, option, value):\n        value = value_to_string(value)\n        self.tree.children.append(\n            Tree(\n                option,"
+T("C13", "twin-set-option-stringifies-other-types-first", F, "", "", edits=[
+    (F, _SET_OPTION, _SET_OPTION.replace("        value = value_to_string(value)\n", "        if not isinstance(value, (bytes, str)):\n            value = str(value)\n        value = value_to_string(value)\n")),
+    (F, _X64_LOOP, _X64_HEAD + _X86_FOR + "                    v = repr(b'\"' + v)[3:-1]\n" + _X86_BODY)])
+M("C13", "set-option-stringifies-other-types-first-unpinned-site", F, "", "", "C13.R11", edits=[
+    (F, _SET_OPTION, _SET_OPTION.replace("        value = value_to_string(value)\n", "        if not isinstance(value, (bytes, str)):\n            value = str(value)\n        value = value_to_string(value)\n")),
+    (F, _X64_LOOP, _X64_HEAD + _X86_FOR + "                    v = repr(v)[2:-1]\n" + _X86_BODY)])
+T("C13", "twin-fix-b-translate-table", F, "", "", edits=_FIX_B + _translate(_TABLE_DOUBLING))
